@@ -146,7 +146,8 @@ func (cs c19case) trees() (v2 map[string]any, v3 map[string]any) {
 		}
 		if cs.nullBodies {
 			pkg["interfaces"] = map[string]any{cs.iface: nil, "Sibling": nil}
-			root["packages"] = map[string]any{cs.pkg: pkg, "example.com/m/b": nil}
+			root["packages"] = map[string]any{cs.pkg: pkg, "example.com/m/b": nil, "example.com/m/empty-map": map[string]any{}, "example.com/m/empty-interfaces": map[string]any{"interfaces": map[string]any{}},
+				"example.com/m/empty-config": map[string]any{"config": map[string]any{}}}
 		} else {
 			pkg["interfaces"] = map[string]any{cs.iface: iface, "Sibling": map[string]any{}}
 			root["packages"] = map[string]any{cs.pkg: pkg, "example.com/m/b": map[string]any{}}
@@ -375,6 +376,28 @@ func C19(c *core.Ctx) error {
 			diff := c19diff("", wn, gn)
 			sig := strings.Join(diff, "; ")
 			c.Report("tree:"+id, "v3 tree differs from the reference mapping: "+sig, replay)
+			results[i] = res{"diff"}
+			return
+		}
+		// package and interface NAMES are preserved exactly, also those whose bodies are empty or null (the tree
+		// comparison above drops empty maps on both sides)
+		names := func(t map[string]any) []string {
+			var out []string
+			pk, _ := t["packages"].(map[string]any)
+			for p, body := range pk {
+				out = append(out, "package "+p)
+				if b, ok := body.(map[string]any); ok {
+					ifs, _ := b["interfaces"].(map[string]any)
+					for n := range ifs {
+						out = append(out, "interface "+p+"."+n)
+					}
+				}
+			}
+			sort.Strings(out)
+			return out
+		}
+		if gnm, wnm := names(got), names(want); !reflect.DeepEqual(gnm, wnm) {
+			c.Report("names:"+id, fmt.Sprintf("package / interface names of the v2 file are not preserved: expected %v, v3 file has %v", wnm, gnm), replay)
 			results[i] = res{"diff"}
 			return
 		}
